@@ -43,6 +43,11 @@ class Interp:
             return VStr(p.fresh(hint, z3.StringSort()))
         if t is TNone:
             return VNone()
+        if t is TPath:
+            return VPath(p.fresh(hint, z3.StringSort()))
+        if hasattr(t, "fresh"):
+            # extension types (e.g. pyvc/fsmodel.py: optional exception values) build their own havoc'd value
+            return t.fresh(self, hint)
         if isinstance(t, TUn):
             return VUn(p.fresh(hint, t.sort()), t)
         if isinstance(t, TOpt):
@@ -243,6 +248,11 @@ class Interp:
         while e is not None:
             chain.append(e)
             e = e.parent
+        ge = getattr(self, "ghost_env", None)
+        if ge is not None and all(x is not ge for x in chain):
+            # environments of inlined functions do not chain to the ghost environment: snapshot it as well, so that
+            # pre_loop(<ghost var>) in their loop invariants means the value at loop entry
+            chain.append(ge)
         new_parent = None
         for e in reversed(chain):
             ne = Env(new_parent, e.module)
@@ -297,7 +307,17 @@ class Interp:
                 r = self.call_method_ast(v, "__len__", [], {})
                 return self.truth(r)
             return z3.BoolVal(True)
-        if isinstance(v, (VFunc, VClass, VModule, VRec, VUn, VOpaque, VExc)):
+        if isinstance(v, VRec) and getattr(v.t, "dictshape", False):
+            if any(k not in v.t.optkeys for k in v.fields):
+                return z3.BoolVal(True)
+            return z3.Or([z3.Not(f.is_none()) for f in v.fields.values()] + [z3.BoolVal(False)])
+        if isinstance(v, VRec) and getattr(v.t, "dictlike", False):
+            # a dict value is truthy iff it has at least one key
+            keys = [k for k in v.fields if not k.startswith("has_")]
+            if any(("has_" + k) not in v.fields for k in keys):
+                return z3.BoolVal(True)
+            return z3.Or([v.fields["has_" + k].e for k in keys] + [z3.BoolVal(False)])
+        if isinstance(v, (VFunc, VClass, VModule, VRec, VUn, VOpaque, VExc, VPath)):
             return z3.BoolVal(True)
         raise Unsupported("truth of %s" % type(v).__name__)
 
@@ -345,6 +365,8 @@ class Interp:
                 return a.e == b.e
             return to_int(a) == to_int(b)
         if isinstance(a, VStr) and isinstance(b, VStr):
+            return a.e == b.e
+        if isinstance(a, VPath) and isinstance(b, VPath):
             return a.e == b.e
         if isinstance(a, VUn) and isinstance(b, VUn) and a.t == b.t:
             return a.e == b.e
@@ -445,6 +467,12 @@ class Interp:
         v = env.lookup(name)
         if v is not None:
             return v
+        if self.spec and getattr(self, "ghost_env", None) is not None:
+            # ghost variables of the contract are visible to every specification, also to loop invariants of
+            # functions interpreted inline (whose environments do not chain to the ghost environment)
+            v = self.ghost_env.vars.get(name)
+            if v is not None:
+                return v
         v = self.ver.module_name(env.module, name, self)
         if v is not None:
             return v
@@ -541,7 +569,7 @@ class Interp:
                 src = self.ev(v, env)
                 if not self.spec:
                     src = self.force(src)
-                if isinstance(src, VRec) and getattr(src.t, "dictlike", False):
+                if isinstance(src, VRec) and getattr(src.t, "dictshape", False):
                     for fn, fv in src.fields.items():
                         vals[fn] = (fv, fn in src.t.optkeys)
                 elif isinstance(src, VDictRec):
@@ -555,7 +583,7 @@ class Interp:
                     raise Unsupported("dict literal with symbolic keys")
                 vals[c] = (self.ev(v, env), False)
         cands = [t for t in self.ver.types.named.values()
-                 if isinstance(t, TRec) and getattr(t, "dictlike", False) and set(t.fields) == set(vals)]
+                 if isinstance(t, TRec) and getattr(t, "dictshape", False) and set(t.fields) == set(vals)]
         if len(cands) != 1:
             raise Unsupported("dict unpacking literal: %d declared dict-shaped records have the keys %s" % (len(cands), sorted(vals)))
         t = cands[0]
@@ -590,7 +618,21 @@ class Interp:
         raise Unsupported("dict literal with symbolic keys")
 
     def ev_Set(self, n, env):
-        raise Unsupported("set literal")
+        """{a, b, c}: a set of scalars of one encodable type (cardinality exact for constants, else 1..n)"""
+        items = [self.ev(e, env) for e in n.elts]
+        if not items or any(not isinstance(x, (VInt, VStr, VBool, VUn)) for x in items):
+            raise Unsupported("set literal")
+        kt = self.join_types([typeof(x) for x in items])
+        dom = z3.K(kt.sort(), z3.BoolVal(False))
+        for x in items:
+            dom = z3.Store(dom, unwrap(x, kt), z3.BoolVal(True))
+        cs = [const_of(x) for x in items]
+        if all(c is not _NOCONST for c in cs):
+            card = z3.IntVal(len(set(cs)))
+        else:
+            card = self.path.fresh("setlit_card", z3.IntSort())
+            self.path.assume(z3.And(card >= 1, card <= len(items)))
+        return VSet(dom, card, kt)
 
     def ev_JoinedStr(self, n, env):
         parts = []
@@ -804,6 +846,28 @@ class Interp:
                 kwargs[kw.arg] = self.ev(kw.value, env)
         return self.call(f, args, kwargs, node=n)
 
+    def run_cut(self, key, env, extra=None):
+        """cut point `key` of the verified contract (`asserts={key: [...]}`): ghost statements are executed, other
+        clauses proved (named obligations) and assumed"""
+        c = self.cur_contract
+        if c is None or not getattr(c, "asserts", None) or len(self.fn_stack) != 1:
+            return
+        for i, cl in enumerate(c.asserts.get(key, [])):
+            if cl.startswith("ghost:"):
+                self.exec_ghost(cl[6:], env, extra=extra)
+                continue
+            self.path.prove(self.eval_spec(cl, env, extra=extra), "%s/assert-after:%s#%d" % (c.short, key, i), "assert", where=cl)
+
+    def ev_Yield(self, n, env):
+        """`yield e` in the verified function itself: the generator's output is not materialised (it may contain
+        heap objects and is produced across loop cuts); instead every yield is a cut point "yield:<source of e>"
+        whose ghost statements (with `_yield` bound to the value) record what the contract talks about."""
+        if len(self.fn_stack) != 1 or self.spec:
+            raise Unsupported("yield outside the verified function")
+        v = self.ev(n.value, env) if n.value is not None else VNone()
+        self.run_cut("yield:" + (ast.unparse(n.value) if n.value is not None else ""), env, extra={"_yield": v})
+        return VNone()
+
     def ev_Lambda(self, n, env):
         return VFunc("lambda", "<lambda>", node=n, module=env.module, closure=env)
 
@@ -1001,6 +1065,68 @@ class Interp:
     def spec_exists(self, n, env):
         return self._quant(n, env, False)
 
+    def spec_exists_fn(self, n, env):
+        """exists_fn(p, body): there is a function p: int -> int with body (p is applied as p(j) in body).
+        Assumed (positive): p is a fresh function symbol.  Proved (positive): the disjunction over explicit
+        candidate witnesses -- the contract's `witnesses[p]` lambdas (evaluated over the function's current
+        locals), the permutations produced by sorted()/list.sort() on this path, and the identity; each
+        disjunct implies the existential, so this is sound (possibly incomplete).  Negative occurrences are
+        not supported."""
+        name = n.args[0].id
+        if not self.polarity:
+            raise Unsupported("exists_fn in a negative position")
+        if self.assume_mode:
+            if self.q_ctx:
+                raise Unsupported("exists_fn under a quantifier in an assumed clause")
+            fn = z3.Function(self.path.fresh_name("sk_" + name), z3.IntSort(), z3.IntSort())
+            cands = [fn]
+        else:
+            cands = []
+            c = self.cur_contract
+            top = getattr(self, "top_env", None)
+            for src in (getattr(c, "witnesses", None) or {}).get(name, []) if c is not None else []:
+                try:
+                    cands.append(self.ev(self.ver.parse_spec(src), top))
+                except (Unsupported, PyRaise, SpecUndef):
+                    continue
+            cands.extend(list(getattr(self.path, "fn_witnesses", []))[-3:])
+            cands.append(None)
+        outs = []
+        saved = self.binders.get(name, _MISSING)
+        try:
+            for cand in cands:
+                if cand is None:
+                    f = VFunc("builtin", name, impl=lambda I, args, kw: args[0])
+                elif isinstance(cand, VFunc):
+                    f = cand
+                else:
+                    f = VFunc("builtin", name, impl=lambda I, args, kw, cand=cand: VInt(cand(to_int(args[0]))))
+                self.binders[name] = f
+                try:
+                    outs.append(self.truth(self.ev(n.args[1], env)))
+                except SpecUndef:
+                    continue
+                except Unsupported:
+                    if isinstance(cand, VFunc) and not self.assume_mode:
+                        continue   # a witness hint that mentions a local not bound on this path
+                    raise
+        finally:
+            if saved is _MISSING:
+                self.binders.pop(name, None)
+            else:
+                self.binders[name] = saved
+        if not outs:
+            return VBool(False)
+        if len(outs) == 1:
+            return VBool(outs[0])
+        disj = z3.Or(outs)
+        if not self.assume_mode:
+            # Path.prove1 tries the candidates one at a time before the whole disjunction
+            if not hasattr(self.path, "witness_ors"):
+                self.path.witness_ors = {}
+            self.path.witness_ors[disj.get_id()] = (disj, outs)
+        return VBool(disj)
+
     def spec_implies(self, n, env):
         pol = self.polarity
         self.polarity = False
@@ -1195,12 +1321,22 @@ class Interp:
         if m is None:
             raise Unsupported("statement %s at line %s" % (type(s).__name__, getattr(s, "lineno", "?")))
         self.ver.cover(s)
+        self.cur_line = getattr(s, "lineno", 0)
         return m(s, env)
 
     def ex_Expr(self, s, env):
         if isinstance(s.value, ast.Constant):
             return
         self.ev(s.value, env)
+        c = self.cur_contract
+        if c is not None and getattr(c, "asserts", None) and len(self.fn_stack) == 1 and isinstance(s.value, ast.Call):
+            # cut point after an expression statement `x.m(...)`: asserts key "call:x.m"
+            key = "call:" + ast.unparse(s.value.func)
+            for i, cl in enumerate(c.asserts.get(key, [])):
+                if cl.startswith("ghost:"):
+                    self.exec_ghost(cl[6:], env)
+                    continue
+                self.path.prove(self.eval_spec(cl, env), "%s/assert-after:%s#%d" % (c.short, key, i), "assert", where=cl)
 
     def ex_Pass(self, s, env):
         pass
@@ -1210,6 +1346,24 @@ class Interp:
         for t in s.targets:
             self.assign(t, v, env)
         self.ghost_asserts_after(s, env)
+
+    def forget_facts(self, names, env):
+        """drop every path fact that mentions the current payload of the given locals (dropping hypotheses is
+        always sound; it keeps the quantified context small once a stage's facts have been transferred)"""
+        ids = set()
+        for nm in names:
+            v = env.lookup(nm)
+            for e in ([v.arr, v.n] if isinstance(v, VSeq) else [v.dom, v.val, v.card] if isinstance(v, VMap) else []):
+                for c in _consts_of(e):
+                    ids.add(c)
+        if not ids:
+            return
+        keep = []
+        for f in self.path.pc:
+            if _consts_of(f) & ids:
+                continue
+            keep.append(f)
+        self.path.pc[:] = keep
 
     def ghost_asserts_after(self, s, env):
         """sidecar cut points: `asserts={"var": [clauses]}` are proved (named obligations) and then assumed
@@ -1226,6 +1380,9 @@ class Interp:
             for i, cl in enumerate(c.asserts.get(nm, [])):
                 if cl.startswith("ghost:"):
                     self.exec_ghost(cl[6:], env)
+                    continue
+                if cl.startswith("forget:"):
+                    self.forget_facts([x.strip() for x in cl[7:].split(",")], env)
                     continue
                 self.path.prove(self.eval_spec(cl, env), "%s/assert-after:%s#%d" % (c.short, nm, i), "assert", where=cl,
                                 assume_form=self.eval_spec(cl, env, assume=True))
@@ -1414,6 +1571,11 @@ class Interp:
 
     def ex_FunctionDef(self, s, env):
         f = VFunc("ast", s.name, node=s, module=env.module, closure=env)
+        outer = self.fn_stack[-1] if getattr(self, "fn_stack", None) else None
+        oq = getattr(outer, "qual", None)
+        if oq is not None and "#" not in oq:
+            # nested function: addressable by contracts as 'path.py:outer.<locals>.inner'
+            f.qual = "%s.<locals>.%s" % (oq, s.name)
         env.set(s.name, f)
 
     def ex_Assert(self, s, env):
@@ -1508,10 +1670,14 @@ class Interp:
                 self.raise_exc("RuntimeError", "no active exception")
             raise PyRaise(cur)
         v = self.ev(s.exc, env)
+        if isinstance(v, VOptObj):
+            v = self.force(v)       # optional exception value (fsmodel.TOptExc); None -> TypeError below
         if isinstance(v, VClass):
             v = self.call(v, [], {})
         if isinstance(v, VExc):
             raise PyRaise(v)
+        if isinstance(v, VNone):
+            self.raise_exc("TypeError", "exceptions must derive from BaseException")
         if isinstance(v, VObj) and self.ver.is_exc_class(v):
             raise PyRaise(VExc(self.class_of(v).name, [v]))
         raise Unsupported("raise of non-exception value")
@@ -1563,9 +1729,17 @@ class Interp:
                     raise
             else:
                 self.exec_block(s.orelse, env)
-        except (PyRaise, ReturnSig, BreakSig, ContinueSig):
+        except (PyRaise, ReturnSig, BreakSig, ContinueSig) as sig:
             if s.finalbody:
-                self.exec_block(s.finalbody, env)
+                # while a `finally` block runs because of an exception, that exception is the one "being handled":
+                # a bare `raise` inside it re-raises *it* (not the exception of an enclosing handler)
+                saved = getattr(self, "cur_exc", None)
+                if isinstance(sig, PyRaise):
+                    self.cur_exc = sig.exc
+                try:
+                    self.exec_block(s.finalbody, env)
+                finally:
+                    self.cur_exc = saved
             raise
         else:
             if s.finalbody:
@@ -1693,6 +1867,14 @@ class Interp:
                     genv.vars[gname] = self.havoc_like(gv, "lg_" + gname)
         for extra in spec.get("modifies", []):
             paths.append(extra)
+        ge = getattr(self, "ghost_env", None)
+        if ge is not None and "fs" in ge.vars:
+            # abstract file system (pyvc/fsmodel.py): I/O primitives mutate the ghost state behind the back of the
+            # syntactic modifies analysis, so every cut loop havocs it (the invariants say what is preserved)
+            from . import fsmodel
+            for g in fsmodel.GHOST_NAMES:
+                if g in ge.vars and g not in paths:
+                    paths.append(g)
         for nm in sorted(names):
             cur = env.lookup(nm)
             lt = self.ver.local_type(self, nm)
@@ -1716,6 +1898,10 @@ class Interp:
         for p in paths:
             try:
                 node = self.ver.parse_spec(p) if isinstance(p, str) else p
+                from .modset import _root
+                rn = _root(node)
+                if rn is not None and rn in names and env.lookup(rn) is None:
+                    continue    # a container local first bound inside the loop body: nothing to havoc yet
                 saved = self.spec
                 self.spec = True
                 try:
@@ -1735,6 +1921,45 @@ class Interp:
                     self.havoc_inplace(v, "lm")
             except Unsupported:
                 raise
+        self.havoc_ghost_targets(s, env)
+
+    def havoc_ghost_targets(self, s, env):
+        """ghost variables written by the `ghost:` statements of the verified contract's cut points
+        (`asserts={"x": [...], "call:x.m": [...]}`) are havoc'd at the cut of every loop whose body contains such a
+        cut point syntactically (ghost variables written by registered `effects` are handled in havoc_loop_targets)."""
+        genv = getattr(self, "ghost_env", None)
+        cc = self.cur_contract
+        if genv is None or not genv.vars or cc is None or len(self.fn_stack) != 1:
+            return
+        writes = self.ver.ghost_cut_writes(cc)
+        if not writes:
+            return
+        from .modset import _target_names
+        cuts = set()
+        for st in list(s.body) + list(s.orelse):
+            for x in ast.walk(st):
+                if isinstance(x, (ast.Assign, ast.AnnAssign)):
+                    for t in getattr(x, "targets", [getattr(x, "target", None)]):
+                        if t is not None:
+                            _target_names(t, cuts)
+                elif isinstance(x, ast.Expr) and isinstance(x.value, ast.Call):
+                    cuts.add("call:" + ast.unparse(x.value.func))
+                elif isinstance(x, ast.Yield):
+                    cuts.add("yield:" + (ast.unparse(x.value) if x.value is not None else ""))
+        names = set()
+        for key, ns in writes.items():
+            if key in cuts:
+                names |= ns
+        for nm in sorted(names):
+            cur = genv.vars.get(nm)
+            if cur is None:
+                continue
+            if isinstance(cur, (VSeq, VMap, VSet, VObj, VDictRec)):
+                self.havoc_inplace(cur, "gh_" + nm)
+            elif isinstance(cur, (VFunc, VClass, VModule, VOpaque)):
+                continue
+            else:
+                genv.vars[nm] = self.fresh_value(typeof(cur), "gh_" + nm)
 
     def ex_For(self, s, env):
         from . import builtins as B
@@ -1742,6 +1967,24 @@ class Interp:
 
 
 _MISSING = object()
+
+
+def _consts_of(e):
+    out = set()
+    seen = set()
+    st = [e]
+    while st:
+        x = st.pop()
+        if x.get_id() in seen:
+            continue
+        seen.add(x.get_id())
+        if z3.is_quantifier(x):
+            st.append(x.body())
+        elif z3.is_app(x):
+            if x.num_args() == 0 and x.decl().kind() == z3.Z3_OP_UNINTERPRETED:
+                out.add(x.decl().name())
+            st.extend(x.children())
+    return out
 
 
 class SpecUndef(Exception):
